@@ -227,8 +227,8 @@ Section Sorts.
       destruct (Z.eqb ew (-1) || Z.eqb sw (-1)) eqn:Ez; [discriminate|].
       apply orb_false_iff in Ez as [Ez1 Ez2]. apply Z.eqb_neq in Ez1, Ez2.
       injection Hs as <-.
-      destruct (bv_width_sound_weak I g a2 ew tb Hla Hcu Hou Eew Ez1 Ht2) as [B1 B2].
-      destruct (bv_width_sound_weak I g a3 sw tc Hla Hcu Hou Esw Ez2 Ht3) as [C1 C2].
+      destruct (bv_width_sound_weak_proof I g a2 ew tb Hla Hcu Hou Eew Ez1 Ht2) as [B1 B2].
+      destruct (bv_width_sound_weak_proof I g a3 sw tc Hla Hcu Hou Esw Ez2 Ht3) as [C1 C2].
       assert (e = Z.to_N ew) as -> by congruence. assert (m = Z.to_N sw) as -> by congruence.
       unfold sFP. replace (Z.to_N (sw + 1)) with (Z.to_N sw + 1)%N by lia. reflexivity. }
     destruct (iss ident "select") eqn:Esel.
